@@ -29,6 +29,16 @@ KANI_RANGES = {
 }
 
 PROPS = {
+    "C08": {
+        "level": "proof",
+        "verus": ["c08_push_count"],
+        "kani": [],
+    },
+    "C09": {
+        "level": "proof",
+        "verus": ["c04_find_value", "c09_either_of", "c03_defaulted", "c11_json_writer", "c17_js_string"],
+        "kani": [KANI_RANGES],
+    },
     "C11": {
         "level": "proof",
         "verus": ["c11_json_writer", "c11_string_indexer"],
